@@ -195,8 +195,9 @@ func (e *Exec) cqHistory() string {
 		var snaps []string
 		for _, sn := range st.Snaps {
 			base, baseVer := last[sn.Ver], sn.Ver
-			if base == nil && sn.Ver > 0 {
-				baseVer = e.parent[sn.Ver]
+			for base == nil && baseVer > 0 {
+				// first observation of a version: delta against its nearest observed ancestor
+				baseVer = e.parent[baseVer]
 				base = last[baseVer]
 			}
 			s, em := e.cqSnap(sn, base, baseVer)
@@ -269,7 +270,7 @@ func emitRun(o lib.Opts) {
 		run.Finish("history", "replay", tail)
 		return
 	}
-	n := 8
+	n := 10
 	if o.Thorough() {
 		n = 60
 	}
